@@ -244,8 +244,10 @@ type fxWorld struct {
 	avoid   map[string]bool
 	quirk   map[string]bool
 	curKind string
+	curOp   string
 	blocks  int64
 	digest  uint64
+	checks  int
 }
 
 var fxNames = []string{"a", "ab", "a b", "~"}
@@ -439,6 +441,15 @@ func (w *fxWorld) genOp(m *fxModel, nIdx int) fxOp {
 	return op
 }
 
+// chk is r.Check, except that a hit of a known finding ends the run quietly: model and store have
+// diverged, anything reported after that would only be a follow-up symptom.
+func (w *fxWorld) chk(ok bool, class, sig, format string, a ...interface{}) {
+	w.r.OracleEvals++
+	if !ok && w.r.Fail(class, sig, format, a...) {
+		w.r.Abort()
+	}
+}
+
 func fxCoin(v int64) sdk.Coin { return sdk.NewCoin("utest", sdk.NewInt(v)) }
 
 // exec runs one operation against the real store on ctx and mirrors it in model m.
@@ -447,12 +458,13 @@ func (w *fxWorld) exec(ctx sdk.Context, s *fxStore, m *fxModel, op fxOp, where s
 	ix := m.idx[op.ix]
 	name := ix.name
 	w.curKind = op.kind
+	w.curOp = fmt.Sprintf("%s%s store=%s idx=%q block=%d val=%d now=%d", where, op.kind, s.prefix, name, op.block, op.val, m.now)
 	outcome := "ok"
 	switch op.kind {
 	case "append":
 		coin := fxCoin(op.val)
 		err := s.fs.AppendEntry(ctx, name, op.block, &coin)
-		r.Check(err == nil, "append-refused", fxSig("legal", ix), "%s: legal AppendEntry(%q, block=%d) at now=%d failed: %v", s.prefix, name, op.block, m.now, err)
+		w.chk(err == nil, "append-refused", fxSig("legal", ix), "%s: legal AppendEntry(%q, block=%d) at now=%d failed: %v", s.prefix, name, op.block, m.now, err)
 		live, c := m.liveCur(ix), m.cur(ix)
 		if ex := ix.at(op.block); ex != nil {
 			ex.val = op.val
@@ -482,16 +494,16 @@ func (w *fxWorld) exec(ctx sdk.Context, s *fxStore, m *fxModel, op fxOp, where s
 	case "append_reject":
 		coin := fxCoin(op.val)
 		err := s.fs.AppendEntry(ctx, name, op.block, &coin)
-		r.Check(err != nil, "append-accepted", fxSig("beyond-scheduled-delete", ix), "%s: AppendEntry(%q, block=%d) on or beyond the scheduled delete at %d was accepted", s.prefix, name, op.block, ix.pendDel)
+		w.chk(err != nil, "append-accepted", fxSig("beyond-scheduled-delete", ix), "%s: AppendEntry(%q, block=%d) on or beyond the scheduled delete at %d was accepted", s.prefix, name, op.block, ix.pendDel)
 		m.probe("append_beyond_scheduled_delete_refused")
 		outcome = "rejected"
 	case "get":
 		var coin sdk.Coin
 		found := s.fs.GetEntry(ctx, name, &coin)
 		live := m.liveCur(ix)
-		r.Check(found == (live != nil), "get-mismatch", fxSig("found", ix), "%s: GetEntry(%q) at now=%d found=%v, model says %v", s.prefix, name, m.now, found, live != nil)
+		w.chk(found == (live != nil), "get-mismatch", fxSig("found", ix), "%s: GetEntry(%q) at now=%d found=%v, model says %v", s.prefix, name, m.now, found, live != nil)
 		if live != nil {
-			r.Check(coin.Amount.Int64() == live.val, "get-mismatch", fxSig("value", ix), "%s: GetEntry(%q) at now=%d returned value %s, model says version %d value %d", s.prefix, name, m.now, coin.Amount, live.block, live.val)
+			w.chk(coin.Amount.Int64() == live.val, "get-mismatch", fxSig("value", ix), "%s: GetEntry(%q) at now=%d returned value %s, model says version %d value %d", s.prefix, name, m.now, coin.Amount, live.block, live.val)
 			live.holds++
 			op.block = live.block
 			if live.holds >= 2 {
@@ -529,7 +541,7 @@ func (w *fxWorld) exec(ctx sdk.Context, s *fxStore, m *fxModel, op fxOp, where s
 		}
 	case "del":
 		err := s.fs.DelEntry(ctx, name, op.block)
-		r.Check(err == nil, "del-refused", fxSig("legal", ix), "%s: legal DelEntry(%q, block=%d) at now=%d failed: %v", s.prefix, name, op.block, m.now, err)
+		w.chk(err == nil, "del-refused", fxSig("legal", ix), "%s: legal DelEntry(%q, block=%d) at now=%d failed: %v", s.prefix, name, op.block, m.now, err)
 		trimmed := 0
 		for _, v := range m.futures(ix) {
 			if v.block >= op.block {
@@ -562,7 +574,7 @@ func (w *fxWorld) exec(ctx sdk.Context, s *fxStore, m *fxModel, op fxOp, where s
 		}
 	case "del_reject":
 		err := s.fs.DelEntry(ctx, name, op.block)
-		r.Check(err != nil, "del-accepted", fxSig("double-or-unknown", ix), "%s: DelEntry(%q, block=%d) at now=%d on an entry that is unknown, deleted or already scheduled for delete (at %d) was accepted", s.prefix, name, op.block, m.now, ix.pendDel)
+		w.chk(err != nil, "del-accepted", fxSig("double-or-unknown", ix), "%s: DelEntry(%q, block=%d) at now=%d on an entry that is unknown, deleted or already scheduled for delete (at %d) was accepted", s.prefix, name, op.block, m.now, ix.pendDel)
 		m.probe("delete_refused")
 		outcome = "rejected"
 	case "modify":
@@ -590,7 +602,10 @@ func (w *fxWorld) mix(x uint64) {
 	w.digest *= 1099511628211
 }
 
-func fxGrid(m *fxModel, ix *fxIdx) []uint64 {
+// fxGrid: the blocks probed for one index: around the current block, every scheduled/fired delete
+// and every version that is still visible; of the long-invisible (stale) versions only the six
+// newest plus a rotating eighth, which keeps long runs linear.
+func fxGrid(m *fxModel, ix *fxIdx, rot int) []uint64 {
 	set := map[uint64]bool{}
 	add := func(b uint64) {
 		if b == fxInf {
@@ -604,7 +619,20 @@ func fxGrid(m *fxModel, ix *fxIdx) []uint64 {
 	}
 	add(m.now)
 	add(ix.pendDel)
+	ghosts := 0
 	for _, v := range ix.vers {
+		if m.isStale(ix, v) {
+			ghosts++
+		}
+	}
+	g := 0
+	for _, v := range ix.vers {
+		if m.isStale(ix, v) {
+			g++
+			if ghosts-g >= 6 && (g+rot)%8 != 0 {
+				continue
+			}
+		}
 		add(v.block)
 		add(v.deleteAt)
 	}
@@ -616,7 +644,16 @@ func fxGrid(m *fxModel, ix *fxIdx) []uint64 {
 	return out
 }
 
-func (w *fxWorld) describe(m *fxModel, ix *fxIdx) string {
+// fxDesc prints the model of one index lazily (only when a check fails).
+type fxDesc struct {
+	m  *fxModel
+	ix *fxIdx
+}
+
+func (w *fxWorld) describe(m *fxModel, ix *fxIdx) fxDesc { return fxDesc{m, ix} }
+
+func (d fxDesc) String() string {
+	m, ix := d.m, d.ix
 	var sb strings.Builder
 	fmt.Fprintf(&sb, "now=%d stale=%d pendDel=%s [", m.now, m.stale, fxB(ix.pendDel))
 	for _, v := range ix.vers {
@@ -624,6 +661,17 @@ func (w *fxWorld) describe(m *fxModel, ix *fxIdx) string {
 	}
 	sb.WriteString(" ]")
 	return sb.String()
+}
+
+func fxKeys(m map[string]bool) []string {
+	var ks []string
+	for k, v := range m {
+		if v {
+			ks = append(ks, k)
+		}
+	}
+	sort.Strings(ks)
+	return ks
 }
 
 func fxB(b uint64) string {
@@ -643,10 +691,9 @@ func fxSig(base string, ix *fxIdx) string {
 // checkStore compares every lookup of the real store with the model (non-mutating calls only;
 // GetEntry is probed on a cache context that is thrown away).
 func (w *fxWorld) checkStore(ctx sdk.Context, s *fxStore, m *fxModel, after string) {
-	r := w.r
 	listed := map[string]bool{}
 	for _, n := range s.fs.GetAllEntryIndices(ctx) {
-		r.Check(!listed[n], "indices-mismatch", "duplicate", "%s after %s: GetAllEntryIndices lists %q twice", s.prefix, after, n)
+		w.chk(!listed[n], "indices-mismatch", "duplicate", "%s after %s: GetAllEntryIndices lists %q twice", s.prefix, after, n)
 		listed[n] = true
 	}
 	known := map[string]bool{}
@@ -655,7 +702,7 @@ func (w *fxWorld) checkStore(ctx sdk.Context, s *fxStore, m *fxModel, after stri
 	}
 	for _, n := range fxNames {
 		if !known[n] {
-			r.Check(!listed[n], "indices-mismatch", "never-appended", "%s after %s: GetAllEntryIndices lists %q which was never appended", s.prefix, after, n)
+			w.chk(!listed[n], "indices-mismatch", "never-appended", "%s after %s: GetAllEntryIndices lists %q which was never appended", s.prefix, after, n)
 		}
 	}
 	for _, ix := range m.idx {
@@ -665,19 +712,24 @@ func (w *fxWorld) checkStore(ctx sdk.Context, s *fxStore, m *fxModel, after stri
 		// index listing
 		switch {
 		case live != nil:
-			r.Check(listed[name], "indices-mismatch", fxSig("live-missing", ix), "%s after %s: %q has a live current version but is not in GetAllEntryIndices; model %s", s.prefix, after, name, w.describe(m, ix))
+			w.chk(listed[name], "indices-mismatch", fxSig("live-missing", ix), "%s after %s: %q has a live current version but is not in GetAllEntryIndices; model %s", s.prefix, after, name, w.describe(m, ix))
 		case len(futs) > 0:
-			r.Check(listed[name], "indices-mismatch", fxSig("future-missing", ix), "%s after %s: %q has pending future versions but is not in GetAllEntryIndices; model %s", s.prefix, after, name, w.describe(m, ix))
+			w.chk(listed[name], "indices-mismatch", fxSig("future-missing", ix), "%s after %s: %q has pending future versions but is not in GetAllEntryIndices; model %s", s.prefix, after, name, w.describe(m, ix))
 		case !ix.taint:
-			r.Check(!listed[name], "indices-mismatch", fxSig("deleted-listed", ix), "%s after %s: %q is unknown or deleted but is in GetAllEntryIndices; model %s", s.prefix, after, name, w.describe(m, ix))
+			w.chk(!listed[name], "indices-mismatch", fxSig("deleted-listed", ix), "%s after %s: %q is unknown or deleted but is in GetAllEntryIndices; model %s", s.prefix, after, name, w.describe(m, ix))
 		}
 		// lookups over the grid of interesting blocks
-		for _, b := range fxGrid(m, ix) {
+		w.checks++
+		for _, b := range fxGrid(m, ix, w.checks) {
 			exp := m.find(ix, b)
 			var coin sdk.Coin
 			gotBlock, _, _, found := s.fs.FindEntryDetailed(ctx, name, b, &coin)
-			var coin2 sdk.Coin
-			found2 := s.fs.FindEntry(ctx, name, b, &coin2)
+			// FindEntry is FindEntryDetailed without the version: called around the current block
+			coin2, found2 := coin, found
+			if b+1 >= m.now && b <= m.now+1 {
+				coin2 = sdk.Coin{}
+				found2 = s.fs.FindEntry(ctx, name, b, &coin2)
+			}
 			w.mix(b)
 			if found {
 				w.mix(gotBlock)
@@ -693,11 +745,11 @@ func (w *fxWorld) checkStore(ctx sdk.Context, s *fxStore, m *fxModel, after stri
 						sig = "found-stale"
 					}
 				}
-				r.Check(!found && !found2, "find-mismatch", fxSig(sig, ix), "%s after %s: FindEntry(%q, block=%d) found version %d value %s but the model finds nothing; model %s", s.prefix, after, name, b, gotBlock, coin.Amount, w.describe(m, ix))
+				w.chk(!found && !found2, "find-mismatch", fxSig(sig, ix), "%s after %s: FindEntry(%q, block=%d) found version %d value %s but the model finds nothing; model %s", s.prefix, after, name, b, gotBlock, coin.Amount, w.describe(m, ix))
 			} else {
-				r.Check(found && found2, "find-mismatch", fxSig("missing", ix), "%s after %s: FindEntry(%q, block=%d) found nothing but the model finds version %d value %d; model %s", s.prefix, after, name, b, exp.block, exp.val, w.describe(m, ix))
-				r.Check(gotBlock == exp.block, "find-mismatch", fxSig("wrong-version", ix), "%s after %s: FindEntry(%q, block=%d) returned version %d, model says version %d; model %s", s.prefix, after, name, b, gotBlock, exp.block, w.describe(m, ix))
-				r.Check(coin.Amount.Int64() == exp.val && coin2.Amount.Int64() == exp.val, "find-mismatch", fxSig("wrong-value", ix), "%s after %s: FindEntry(%q, block=%d) returned value %s/%s, model says version %d value %d; model %s", s.prefix, after, name, b, coin.Amount, coin2.Amount, exp.block, exp.val, w.describe(m, ix))
+				w.chk(found && found2, "find-mismatch", fxSig("missing", ix), "%s after %s: FindEntry(%q, block=%d) found nothing but the model finds version %d value %d; model %s", s.prefix, after, name, b, exp.block, exp.val, w.describe(m, ix))
+				w.chk(gotBlock == exp.block, "find-mismatch", fxSig("wrong-version", ix), "%s after %s: FindEntry(%q, block=%d) returned version %d, model says version %d; model %s", s.prefix, after, name, b, gotBlock, exp.block, w.describe(m, ix))
+				w.chk(coin.Amount.Int64() == exp.val && coin2.Amount.Int64() == exp.val, "find-mismatch", fxSig("wrong-value", ix), "%s after %s: FindEntry(%q, block=%d) returned value %s/%s, model says version %d value %d; model %s", s.prefix, after, name, b, coin.Amount, coin2.Amount, exp.block, exp.val, w.describe(m, ix))
 				if m.refs(ix, exp) == 0 {
 					m.probe("found_in_stale_period")
 				}
@@ -708,9 +760,9 @@ func (w *fxWorld) checkStore(ctx sdk.Context, s *fxStore, m *fxModel, after stri
 			// exact-version existence
 			has := s.fs.HasEntry(ctx, name, b)
 			if v := ix.at(b); v == nil {
-				r.Check(!has, "has-mismatch", fxSig("phantom", ix), "%s after %s: HasEntry(%q, %d)=true but no such version was appended (or it was cancelled); model %s", s.prefix, after, name, b, w.describe(m, ix))
+				w.chk(!has, "has-mismatch", fxSig("phantom", ix), "%s after %s: HasEntry(%q, %d)=true but no such version was appended (or it was cancelled); model %s", s.prefix, after, name, b, w.describe(m, ix))
 			} else if !m.isStale(ix, v) {
-				r.Check(has, "has-mismatch", fxSig("visible-version-collected", ix), "%s after %s: HasEntry(%q, %d)=false but the version is still visible; model %s", s.prefix, after, name, b, w.describe(m, ix))
+				w.chk(has, "has-mismatch", fxSig("visible-version-collected", ix), "%s after %s: HasEntry(%q, %d)=false but the version is still visible; model %s", s.prefix, after, name, b, w.describe(m, ix))
 			}
 		}
 		// all versions: every visible version is stored, nothing is stored that never existed
@@ -718,10 +770,10 @@ func (w *fxWorld) checkStore(ctx sdk.Context, s *fxStore, m *fxModel, after stri
 		gotSet := map[uint64]bool{}
 		for i, b := range got {
 			if i > 0 {
-				r.Check(got[i-1] < b, "versions-mismatch", fxSig("order", ix), "%s after %s: GetAllEntryVersions(%q)=%v is not strictly ascending", s.prefix, after, name, got)
+				w.chk(got[i-1] < b, "versions-mismatch", fxSig("order", ix), "%s after %s: GetAllEntryVersions(%q)=%v is not strictly ascending", s.prefix, after, name, got)
 			}
 			gotSet[b] = true
-			r.Check(ix.at(b) != nil, "versions-mismatch", fxSig("phantom", ix), "%s after %s: GetAllEntryVersions(%q)=%v contains %d which was never appended or was cancelled; model %s", s.prefix, after, name, got, b, w.describe(m, ix))
+			w.chk(ix.at(b) != nil, "versions-mismatch", fxSig("phantom", ix), "%s after %s: GetAllEntryVersions(%q)=%v contains %d which was never appended or was cancelled; model %s", s.prefix, after, name, got, b, w.describe(m, ix))
 			w.mix(b)
 		}
 		for _, v := range ix.vers {
@@ -731,19 +783,19 @@ func (w *fxWorld) checkStore(ctx sdk.Context, s *fxStore, m *fxModel, after stri
 				}
 				continue
 			}
-			r.Check(gotSet[v.block], "versions-mismatch", fxSig("visible-version-collected", ix), "%s after %s: GetAllEntryVersions(%q)=%v lacks version %d which is still visible; model %s", s.prefix, after, name, got, v.block, w.describe(m, ix))
+			w.chk(gotSet[v.block], "versions-mismatch", fxSig("visible-version-collected", ix), "%s after %s: GetAllEntryVersions(%q)=%v lacks version %d which is still visible; model %s", s.prefix, after, name, got, v.block, w.describe(m, ix))
 			var coin sdk.Coin
 			s.fs.ReadEntry(ctx, name, v.block, &coin)
-			r.Check(coin.Amount.Int64() == v.val, "read-mismatch", fxSig("value", ix), "%s after %s: ReadEntry(%q, %d) returned %s, model says %d", s.prefix, after, name, v.block, coin.Amount, v.val)
-			r.Check(!s.fs.IsEntryStale(ctx, name, v.block), "stale-mismatch", fxSig("visible-reported-stale", ix), "%s after %s: IsEntryStale(%q, %d)=true but the version is visible; model %s", s.prefix, after, name, v.block, w.describe(m, ix))
+			w.chk(coin.Amount.Int64() == v.val, "read-mismatch", fxSig("value", ix), "%s after %s: ReadEntry(%q, %d) returned %s, model says %d", s.prefix, after, name, v.block, coin.Amount, v.val)
+			w.chk(!s.fs.IsEntryStale(ctx, name, v.block), "stale-mismatch", fxSig("visible-reported-stale", ix), "%s after %s: IsEntryStale(%q, %d)=true but the version is visible; model %s", s.prefix, after, name, v.block, w.describe(m, ix))
 		}
 		// GetEntry without keeping the reference
 		cctx, _ := ctx.CacheContext()
 		var coin sdk.Coin
 		found := s.fs.GetEntry(cctx, name, &coin)
-		r.Check(found == (live != nil), "get-mismatch", fxSig("probe-found", ix), "%s after %s: GetEntry(%q) found=%v, model says %v; model %s", s.prefix, after, name, found, live != nil, w.describe(m, ix))
+		w.chk(found == (live != nil), "get-mismatch", fxSig("probe-found", ix), "%s after %s: GetEntry(%q) found=%v, model says %v; model %s", s.prefix, after, name, found, live != nil, w.describe(m, ix))
 		if live != nil && found {
-			r.Check(coin.Amount.Int64() == live.val, "get-mismatch", fxSig("probe-value", ix), "%s after %s: GetEntry(%q) returned %s, model says version %d value %d", s.prefix, after, name, coin.Amount, live.block, live.val)
+			w.chk(coin.Amount.Int64() == live.val, "get-mismatch", fxSig("probe-value", ix), "%s after %s: GetEntry(%q) returned %s, model says version %d value %d", s.prefix, after, name, coin.Amount, live.block, live.val)
 		}
 	}
 }
@@ -807,6 +859,7 @@ func (w *fxWorld) guard(fn func()) {
 			panic(p) // verdicts of the harness itself
 		}
 		st := string(debug.Stack())
+		w.r.Logf("panic during %s", w.curOp)
 		lines := strings.Split(st, "\n")
 		if len(lines) > 50 {
 			lines = lines[:50]
@@ -826,6 +879,7 @@ func (w *fxWorld) advance(n int) {
 		w.ctx = w.ctx.WithBlockHeight(w.ctx.BlockHeight() + 1)
 		w.blocks++
 		w.curKind = "tick"
+		w.curOp = fmt.Sprintf("tick to block %d", w.ctx.BlockHeight())
 		w.guard(func() {
 			for _, s := range w.st {
 				s.ts.Tick(w.ctx)
@@ -833,17 +887,55 @@ func (w *fxWorld) advance(n int) {
 		})
 		for _, s := range w.st {
 			s.m.tick()
-			r.Check(uint64(w.ctx.BlockHeight()) == s.m.now, "harness", "clock", "clock drift")
+			w.chk(uint64(w.ctx.BlockHeight()) == s.m.now, "harness", "clock", "clock drift")
 		}
+		// full comparison on the last block of the step and on every block at which (or right
+		// after which) the model says something is due; a light one (lookups at the current
+		// block) on uneventful blocks in between
+		due := w.dueAt(uint64(w.ctx.BlockHeight())) || w.dueAt(uint64(w.ctx.BlockHeight())-1)
 		w.curKind = "check"
 		w.guard(func() {
 			for _, s := range w.st {
-				w.checkStore(w.ctx, s, s.m, "tick")
+				if due || i == n-1 {
+					w.checkStore(w.ctx, s, s.m, "tick")
+				} else {
+					w.checkLight(w.ctx, s, s.m)
+				}
 			}
 		})
 		r.Logf("tick now=%d digest=%x", w.ctx.BlockHeight(), w.digest)
 	}
 	r.Op("tick", "ok")
+}
+
+func (w *fxWorld) dueAt(b uint64) bool {
+	for _, s := range w.st {
+		for _, ix := range s.m.idx {
+			for _, v := range ix.vers {
+				if v.block == b || v.deleteAt == b || v.staleAt == b {
+					return true
+				}
+			}
+		}
+	}
+	return false
+}
+
+func (w *fxWorld) checkLight(ctx sdk.Context, s *fxStore, m *fxModel) {
+	for _, ix := range m.idx {
+		exp := m.find(ix, m.now)
+		var coin sdk.Coin
+		gotBlock, _, _, found := s.fs.FindEntryDetailed(ctx, ix.name, m.now, &coin)
+		w.mix(m.now)
+		if found {
+			w.mix(gotBlock)
+			w.mix(uint64(coin.Amount.Int64()))
+		}
+		w.chk(found == (exp != nil), "find-mismatch", fxSig("current-block", ix), "%s after tick: FindEntry(%q, block=%d) found=%v (version %d), model says %v; model %s", s.prefix, ix.name, m.now, found, gotBlock, exp != nil, w.describe(m, ix))
+		if found && exp != nil {
+			w.chk(gotBlock == exp.block && coin.Amount.Int64() == exp.val, "find-mismatch", fxSig("current-block", ix), "%s after tick: FindEntry(%q, block=%d) returned version %d value %s, model says version %d value %d; model %s", s.prefix, ix.name, m.now, gotBlock, coin.Amount, exp.block, exp.val, w.describe(m, ix))
+		}
+	}
 }
 
 // nextEvent: distance to the next block at which something is due in any model (0: nothing).
@@ -905,7 +997,17 @@ func runC14(r *simrt.Run) {
 		}
 		w.st = append(w.st, &fxStore{prefix: prefixes[i], fs: fs, ts: ts, m: m})
 	}
-	r.Logf("cfg start=%d stale=%d stores=%d indices=%d steps=%d avoid=%v", w.ctx.BlockHeight(), stale, nStores, nIdx, steps, os.Getenv("C14_AVOID"))
+	// Two legal situations are known to break the real store (see the report of this harness):
+	// deleting "now" an entry whose current version was appended/matured in this very block, and
+	// cancelling (PutEntry) the future version that holds a scheduled delete. They are generated
+	// in one run out of four only, so that the other runs are not cut short by them once they are
+	// registered as known findings. Development aids: C14_AVOID (comma list) switches them off,
+	// C14_HAZARDS=all generates them in every run.
+	if r.Draw("cfg", 4) != 3 && os.Getenv("C14_HAZARDS") != "all" {
+		w.avoid["del_now_version_of_now"] = true
+		w.avoid["put_future_delete_holder"] = true
+	}
+	r.Logf("cfg start=%d stale=%d stores=%d indices=%d steps=%d avoid=%v", w.ctx.BlockHeight(), stale, nStores, nIdx, steps, fxKeys(w.avoid))
 	for i := 0; i < steps; i++ {
 		r.Step()
 		// 0 (also what an exhausted tape yields while shrinking) ends the run: a shrunk tape then
